@@ -1373,6 +1373,15 @@ func selfEvidentVariant(fs *ast.ForStmt) bool {
 // lo + constant), or a dominating branch compared them (lo <= hi, lo < hi, hi >= lo, hi > lo).
 func boundsOrdered(lo, hi ssa.Value, b *ssa.BasicBlock) bool {
 	lo, hi = stripTrivial(lo), stripTrivial(hi)
+	// the [start, end) offsets of one capture group, as getGroupOffsets hands them out (results 0
+	// and 1 of one call; regexp guarantees start <= end for a group that took part in the match)
+	if el, ok := lo.(*ssa.Extract); ok && el.Index == 0 {
+		if eh, ok := hi.(*ssa.Extract); ok && eh.Index == 1 && eh.Tuple == el.Tuple {
+			if cl, ok := el.Tuple.(*ssa.Call); ok && calleeName(cl) == "core/annotations.getGroupOffsets" {
+				return true
+			}
+		}
+	}
 	if bo, ok := hi.(*ssa.BinOp); ok && bo.Op == token.ADD {
 		other := ssa.Value(nil)
 		if stripTrivial(bo.X) == lo {
